@@ -32,6 +32,8 @@ theorem c38_confined (tmp : String) (htmp : simple tmp = true) (w : World) (T : 
     simp only
     split
     · exact Chg.refl _ _ _
+    split
+    · exact Chg.refl _ _ _
     · split
       · exact Chg.refl _ _ _
       · rename_i hname
@@ -41,6 +43,7 @@ theorem c38_confined (tmp : String) (htmp : simple tmp = true) (w : World) (T : 
           exact ⟨hname.1.1, hname.1.2, hname.2⟩
         cases ht : h.typ with
         | other => exact Chg.refl _ _ _
+        | bad => exact Chg.refl _ _ _
         | dir =>
           simp only
           obtain ⟨hpm, hok⟩ := extractDir_spec hroot T hsT hanc
